@@ -103,12 +103,14 @@ def norm(e, env):
     return "?" + ast.unparse(e)
 
 
-def handler_name(e):
-    """`consts.HANDLE_X` or bare `HANDLE_X` -> 'HANDLE_X'"""
+def handler_name(e, local_nodes=None):
+    """`consts.HANDLE_X`, bare `HANDLE_X`, or a local name unconditionally bound to one of those -> 'HANDLE_X'"""
     if isinstance(e, ast.Attribute) and isinstance(e.value, ast.Name) and e.value.id == "consts":
         return e.attr
     if isinstance(e, ast.Name) and e.id.startswith("HANDLE_"):
         return e.id
+    if isinstance(e, ast.Name) and local_nodes and e.id in local_nodes:
+        return handler_name(local_nodes[e.id], None)
     return None
 
 
@@ -116,6 +118,7 @@ def requests_in(fn_node, env):
     """every syncreq/asyncreq call in the function, in source order: (kind, target, HANDLE, [args])"""
     env = dict(env)
     out = []
+    local_nodes = {}
 
     class V(ast.NodeVisitor):
         def visit_FunctionDef(self, node):  # do not descend into nested functions
@@ -131,7 +134,7 @@ def requests_in(fn_node, env):
             if isinstance(f, ast.Name) and f.id in ("syncreq", "asyncreq"):
                 if len(node.args) < 2 or node.keywords:
                     raise Inexpressible("%s: %s call with an unexpected shape" % (fn_node.name, f.id))
-                h = handler_name(node.args[1])
+                h = handler_name(node.args[1], local_nodes)
                 if h is None:
                     raise Inexpressible("%s: handler of a %s call is not a HANDLE_* constant: %s"
                                         % (fn_node.name, f.id, ast.unparse(node.args[1])))
@@ -141,6 +144,7 @@ def requests_in(fn_node, env):
     # unconditional top-level re-assignments `x = expr` are substituted (kwargs = tuple(kwargs.items()))
     for s in fn_node.body:
         if isinstance(s, ast.Assign) and len(s.targets) == 1 and isinstance(s.targets[0], ast.Name):
+            local_nodes[s.targets[0].id] = s.value
             env[s.targets[0].id] = norm(s.value, env)
     V().visit(fn_node)
     return out
